@@ -406,14 +406,18 @@ func scnOf(threads ...[]int) string {
 // CheckC14 — no dependence on history, interleaving or aliasing.
 func CheckC14(r *Report) {
 	thorough := r.Tier == "thorough"
-	r.Rule = "E4 sched: the four packages are rebuilt from the working tree with their `sync` import redirected (go build -overlay) to a shim whose Pool.Get/Put are scheduling points and whose Get answer (any pooled item or a fresh New) is an explored choice; a controlled scheduler runs one goroutine at a time and a stateless DFS with replay enumerates ALL schedules x pool answers of small harnesses (2-3 threads x 1-2 calls; all call histories up to a depth as 1-thread scenarios); oracle: every call returns what it returns alone in a fresh state, strings returned by Vector() never change, shared objects unchanged; every violation is replayed twice. Side pass (detector, not enumeration): same bodies free-running on 16 goroutines under -race. distinct = executions (each a distinct choice sequence)"
+	r.Rule = "E4 sched: the four packages are rebuilt from the working tree with their `sync` import redirected (go build -overlay) to a shim whose Pool.Get/Put are scheduling points and whose Get answer (any pooled item or a fresh New) is an explored choice; a controlled scheduler runs one goroutine at a time and a stateless DFS with replay enumerates ALL schedules x pool answers of small harnesses (2-3 threads x 1-2 calls; all call histories up to a depth as 1-thread scenarios); oracle: every call returns what it returns alone in a fresh state, strings returned by Vector() never change, shared objects unchanged; every violation is replayed twice. Sequential histories beyond that depth: two fresh processes compute the same score tables (sub-lattices of every version, plus all single-Set neighbourhoods of a family of objects spread over the whole space, scored right after one another) in ascending resp. descending order and must agree entry by entry, and the first calls of each process must equal the same calls repeated after that history. Side pass (detector, not enumeration): same bodies free-running on 16 goroutines under -race. distinct = executions (each a distinct choice sequence)"
 	tmp, err := os.MkdirTemp("", "verif-c14-")
 	if err != nil {
 		r.Note("cannot create scratch dir: %v", err)
 		r.NotExhaustive("no scratch dir")
 		return
 	}
-	defer os.RemoveAll(tmp)
+	if os.Getenv("VERIF_KEEP_TMP") == "" {
+		defer os.RemoveAll(tmp)
+	} else {
+		r.Note("scratch dir kept: %s", tmp)
+	}
 	bin, instrumented, err := buildSched(tmp)
 	r.SetExtra("instrumented_files", instrumented)
 	total := newSchedStats()
@@ -848,6 +852,11 @@ func coldConcurrent(r *Report, bin string, thorough bool) map[string]any {
 		bound = 2
 	}
 	var scenarios []string
+	// every body alone as the very first call of a fresh process: must return what it returns after the other
+	// bodies have run (the isolated results are taken in body order inside one process, i.e. with history)
+	for _, b := range bodies {
+		scenarios = append(scenarios, scnOf([]int{b.Index}))
+	}
 	for _, p := range multisets(menu, 2) {
 		scenarios = append(scenarios, scnOf([]int{p[0]}, []int{p[1]}))
 	}
@@ -909,6 +918,10 @@ func coldConcurrent(r *Report, bin string, thorough bool) map[string]any {
 					if ti < len(o.Results) && ci < len(o.Results[ti]) && o.Results[ti][ci] != bodies[bi].Isolated {
 						key = "result-depends-on-schedule@cold-start/" + bodies[bi].Name
 						what = fmt.Sprintf("thread %d call %d (%s) returned %q when both threads make their first calls concurrently in a fresh process; alone it returns %q", ti, ci, bodies[bi].Name, o.Results[ti][ci], bodies[bi].Isolated)
+						if !strings.Contains(it.scn, "|") {
+							key = "result-depends-on-history@cold-start/" + bodies[bi].Name
+							what = fmt.Sprintf("%s returned %q as the very first call of a fresh process; after the other calls have run in the process it returns %q", bodies[bi].Name, o.Results[ti][ci], bodies[bi].Isolated)
+						}
 					}
 				}
 				ti++
